@@ -13,7 +13,9 @@ import (
 func NewReconcilerForVerif(topo topo.Store, conns gnmi.ConnManager, proposals proposalstore.Store, configurations configuration.Store, pluginRegistry pluginregistry.PluginRegistry) *Reconciler {
 	return &Reconciler{conns: conns, topo: topo, proposals: proposals, configurations: configurations, pluginRegistry: pluginRegistry}
 }
-func NewWatcherForVerif(proposals proposalstore.Store) *Watcher { return &Watcher{proposals: proposals} }
+func NewWatcherForVerif(proposals proposalstore.Store) *Watcher {
+	return &Watcher{proposals: proposals}
+}
 func NewConfigurationWatcherForVerif(configurations configuration.Store) *ConfigurationWatcher {
 	return &ConfigurationWatcher{configurations: configurations}
 }
